@@ -215,7 +215,9 @@ class Check(PropertyCheck):
                 for sd in range(12):
                     runs, dump, reg = one_db(specs, random.Random(sd), work)
                     bad = L.check_db(runs, dump, reg)
-                    hit = [b for b in bad if b[0] == r.get("key")] or bad
+                    from harness.lib import load_known_findings
+                    known = {k["key"] for k in load_known_findings() if k.get("property") == "C20"}
+                    hit = [b for b in bad if b[0] == r.get("key")] or [b for b in bad if b[0] not in known]
                     if hit:
                         print("replay: still fails (schedule seed %d): %s: %s" % (sd, hit[0][0], hit[0][1]))
                         return 1
